@@ -91,6 +91,9 @@ func gen(seed uint64, idx int) hcase {
 		default:
 			if r.Chance(1, 3) {
 				c.Ops = append(c.Ops, op{Kind: "reopen"})
+			} else if r.Chance(1, 3) {
+				// a message is taken and the queue is closed straight away, without waiting for it to come to rest
+				c.Ops = append(c.Ops, op{Kind: "getclose"})
 			} else {
 				c.Ops = append(c.Ops, op{Kind: "get"})
 			}
@@ -112,12 +115,16 @@ func compact(ops []op, max int) string {
 			fmt.Fprintf(&b, "p%d ", o.Len)
 		case "get":
 			b.WriteString("g ")
+		case "getclose":
+			b.WriteString("gR ")
 		default:
 			b.WriteString("R ")
 		}
 	}
 	return b.String()
 }
+
+var nGetClose int
 
 func runCase(res *mon.Result, c hcase, dir string) {
 	os.RemoveAll(dir)
@@ -207,7 +214,23 @@ func runCase(res *mon.Result, c hcase, dir string) {
 			if !get(step) {
 				return
 			}
-		case "reopen":
+		case "reopen", "getclose":
+			if o.Kind == "getclose" && len(model) > 0 {
+				var m []byte
+				select {
+				case m = <-q.D.ReadChan():
+				case <-time.After(q.Watchdog):
+					viol("undelivered", "step %d: no message delivered although %d are queued", step, len(model))
+					return
+				}
+				if !bytes.Equal(m, model[0]) {
+					viol("wrong-message", "step %d: delivered %d bytes %.16x, expected head of %d bytes %.16x", step, len(m), m, len(model[0]), model[0])
+					return
+				}
+				delivered = append(delivered, kept{m, model[0]})
+				model = model[1:]
+				nGetClose++
+			}
 			if len(model) > 0 {
 				reopenNonEmpty = true
 			}
@@ -343,6 +366,7 @@ func main() {
 		res.Eval(1)
 		res.Count("concurrent_histories", 1)
 	}
+	res.Count("gets_followed_by_immediate_close", nGetClose)
 	res.Floor("histories", ran, n)
 	res.Write()
 }
